@@ -927,6 +927,36 @@ theorem C10_list_satisfies_request (verArg : Str) (tags : List Str) (stacks : Li
             subst h
             exact ⟨fun p hp => ((finalFilter_spec verArg out l' hf p).mp (mem_uniqVers hp)).2, (uniqVers_nodup l' []).1⟩
 
+/-- … and every product listed is a version declared in the stack it is reported from (whatever the tags and the
+version argument): together with `C10_list_satisfies_request`, the listing shows declared versions that satisfy the
+request and nothing else. -/
+theorem C10_list_declared (verArg : Str) (tags : List Str) (stacks : List (List Decl)) (l : List (Nat × Str))
+    (h : listProducts verArg tags stacks = .ok (.products l)) : ∀ p ∈ l, Declared stacks p := by
+  simp only [listProducts] at h
+  cases hs : listStacks verArg tags stacks 0 stacks [] with
+  | error e => simp [hs] at h
+  | ok oo =>
+    cases oo with
+    | none => simp [hs] at h
+    | some out =>
+      have hout := listStacks_declared verArg tags stacks stacks 0 [] out (by simp) (by simp) hs
+      simp only [hs] at h
+      split at h
+      · simp only [Except.ok.injEq, ListOut.products.injEq] at h
+        subst h
+        exact fun p hp => hout p (mem_uniqVers hp)
+      · split at h
+        · simp at h
+        · cases hf : finalFilter verArg out with
+          | error e => simp [hf] at h
+          | ok ol =>
+            cases ol with
+            | none => simp [hf] at h
+            | some l' =>
+              simp only [hf, Except.ok.injEq, ListOut.products.injEq] at h
+              subst h
+              exact fun p hp => hout p ((finalFilter_spec verArg out l' hf p).mp (mem_uniqVers hp)).1
+
 /-- For a relational request: every version listed is accepted by `version_match` … -/
 theorem C10_list_relational (verArg : Str) (tags : List Str) (stacks : List (List Decl)) (l : List (Nat × Str))
     (hrel : isLegalRelativeVersion verArg = .relational) (h : listProducts verArg tags stacks = .ok (.products l)) :
